@@ -118,3 +118,14 @@ package keeper
 //@        isnil(res_NewIntFromString_0) || val(res_NewIntFromString_0) <= 0
 //@ loop #1
 //@   invariant true
+
+// C13 (a submission is admitted only for a round that is open): closing a feeder's round takes the feeder's entry out
+// of the validator's STORED nonce record - whether or not other feeders' entries remain in it.
+//@ func (Keeper).removeNonceWithValidatorAndFeederID
+//@   requires get(store, nonceKeyV(validator)) != nil ==> unm["x/oracle/types.ValidatorNonce"](get(store, nonceKeyV(validator))).Validator == validator
+//@   flag noframe
+//@   ensures[C13.rnvf.written] r0 ==> get(store, nonceKeyV(validator)) == nil ||
+//@        len(unm["x/oracle/types.ValidatorNonce"](get(store, nonceKeyV(validator))).NonceList) + 1 == len(old(unm["x/oracle/types.ValidatorNonce"](get(store, nonceKeyV(validator))).NonceList))
+//@ loop #1
+//@   invariant true
+//@ define nonceKeyV(v) = cat(v, "/")
